@@ -1,12 +1,60 @@
 """C03 - DataFrame.sort is a stable, key-ordered permutation of whole rows."""
+import numpy as np
+
 from props import c02
+
+
+def big_projections(ctx, nrows, ncases):
+    """Frames far larger than anything TLC enumerates (size-dependent sort kernels): a frame of nrows rows is sorted by
+    the library; a projection onto a few dozen rows is shipped to the same trace spec.  Sound: if the whole result is
+    the stable key-ordered permutation of the input, so is its restriction to any subset of the rows."""
+    import dataiter as di
+    rng = ctx.rng
+    records = []
+    for _ in range(ncases):
+        kvals = np.array([rng.randrange(3) for _ in range(nrows)])            # three key classes, heavy ties
+        keykind = rng.choice(["int", "float", "str"])
+        col = {"int": di.Vector(kvals, int), "float": di.Vector(kvals * 0.5, float),
+               "str": di.Vector([("a", "b", "c")[v] for v in kvals], str)}[keykind]
+        d = di.DataFrame(k=col, rid=np.arange(nrows))
+        direction = rng.choice([1, -1])
+        rec = {"fr": {"cols": ["k", "j", "r"], "cell": {"k": [], "j": [], "r": []}},
+               "a": {"op": "sort", "keys": ["k"], "dirs": [direction]}, "out": {"cols": ["k", "j", "r"], "cell": {"k": [], "j": [], "r": []}}, "err": ""}
+        try:
+            out = d.sort(k=direction)
+            # rows of the projection: mostly one key class (ties), positions spread over the whole frame
+            cls = rng.randrange(3)
+            pool = np.flatnonzero(kvals == cls)
+            sel = sorted(set(rng.sample(list(pool), min(30, len(pool))) + rng.sample(range(nrows), 8)))
+            pos = {int(r): i for i, r in enumerate(sel)}
+            rec["fr"]["cell"] = {"k": [2 * int(kvals[r]) for r in sel], "j": [0] * len(sel), "r": [2 * i for i in range(len(sel))]}
+            orid = np.asarray(out["rid"])
+            okey = np.asarray(out["k"])
+            keep = [i for i in range(nrows) if int(orid[i]) in pos]
+            conc = {"int": lambda x: int(x), "float": lambda x: int(round(float(x) * 2)), "str": lambda x: "abc".index(str(x))}[keykind]
+            rec["out"]["cell"] = {"k": [2 * conc(okey[i]) for i in keep], "j": [0] * len(keep), "r": [2 * pos[int(orid[i])] for i in keep]}
+            rec["whole"] = {"nrow": nrows, "nrow_out": int(out.nrow), "key": keykind}
+            if int(out.nrow) != nrows or sorted(orid.tolist()) != list(range(nrows)):
+                rec["err"] = "result is not a permutation of the %d input rows" % nrows
+        except Exception as e:
+            rec["err"] = type(e).__name__ + ": " + str(e)[:80]
+        records.append(rec)
+    bad = ctx.validate("FrameOpsTrace", [{k: v for k, v in r.items() if k != "whole"} for r in records])
+    for i, clause in bad:
+        ctx.fail(clause, {"op": "sort", "large_frame": True, "key": records[i].get("whole", {}).get("key", "")}, {"rec": records[i]})
+    ctx.extra["large_frames"] = {"rows": nrows, "cases": len(records)}
 
 
 def run(ctx):
     c02.run_machine(ctx, "sort", ["sort"])
     from props import c01
     c01.histories_for(ctx, "C03", 300 if ctx.tier == "quick" else 4000)
+    big_projections(ctx, 100003, 3 if ctx.tier == "quick" else 12)
 
 
 def replay(ctx, rp):
-    c02.replay(ctx, rp)
+    rest = [c for c in rp["cases"] if not c.get("rec", {}).get("whole")]
+    if len(rest) < len(rp["cases"]):
+        big_projections(ctx, 100003, 4)
+    if rest:
+        c02.replay(ctx, dict(rp, cases=rest))
